@@ -56,7 +56,8 @@ class Case:
         self.p, self.e, self.rng, self.W = p, e, rng, W
         T = self.T = 1500000000 + rng.randrange(100000)
         P1 = self.P1 = T + 1000 + rng.randrange(500); self.P2 = P1 + 4000 + rng.randrange(100); self.PB = T + 1 + rng.randrange(400); self.HEAD = self.P2 + 777
-        doc = self.doc = ksi.imprint(1, b"c04-%d" % rng.randrange(1 << 30))
+        self.docdata = b"c04-%d" % rng.randrange(1 << 30)         # the signed document itself (KSI_Signature_verifyDocument hashes it)
+        doc = self.doc = ksi.imprint(1, self.docdata)
         self.doc_arg = ""
         anchor = None if not e["cal"] else {"none": "none-cal", "pub": "pub", "auth": "auth"}[e["rec"]]
         s = self.s = ksi.build_sig(rng, doc, nchains=2, time=T, pub=P1, anchor=anchor, kinds=("imprint", "legacy", "meta"))
